@@ -26,6 +26,8 @@ DOMAINS = {
     'sparse': [0, 1, 5, 17, 100, 1000, 9999],
     'descending': [40, 30, 20, 10, 5, 3, 2, 1, 0],
     'tiny': [0, 1, 2],
+    # sequential growth far beyond CPython's small-int cache and typical allocation blocks (64 / 256 / 1024)
+    'wide': list(range(0, 1300)),
 }
 
 
@@ -80,7 +82,7 @@ def gen_history(r, states, nops, domain):
         s = r.randrange(len(states))
         dt = states[s]['dtype']
         lv = live[s]
-        choices = ['add']
+        choices = ['add'] if domain != 'wide' else ['add'] * 12
         if lv:
             choices += ['set', 'get', 'get', 'del', 'iterate', 'readd']
             if dt == 'mapper':
@@ -90,7 +92,7 @@ def gen_history(r, states, nops, domain):
         op = r.choice(choices)
         if op == 'add':
             cand = [i for i in dom if i not in lv] or dom
-            i = r.choice(cand)
+            i = r.choice(cand) if domain != 'wide' else (min(cand) if r.random() < 0.9 else r.choice(cand))
             lv.add(i)
             mapped[s][i] = []
             ops.append([s, 'add_key', i, None])
@@ -170,7 +172,7 @@ class C14(Check):
     LEVEL = 'exploration'
     BUDGET = {'quick': 25, 'thorough': 240}
     RULE = ('case (a) = (list of 1..3 states each (data type in int/uint/float/bool/obj/mapper, default or None), index domain dense/sparse(0..9999)/'
-            'descending/tiny, access direct or through StoreManager->Store, history of 50..400 contract-respecting operations add_key / re-add / set / get / '
+            'descending/tiny/wide (sequential growth to several hundred live slots, beyond 256), access direct or through StoreManager->Store, history of 50..400 contract-respecting operations add_key / re-add / set / get / '
             'del_key / iterate / add_map / get_map / iterate_map with map keys that are equal-but-not-identical objects); after EVERY operation every live '
             'slot of every state is re-read against the dict model. case (b) = (named operator pipeline, input) run on the shadow store. '
             'non-trivial = >= 3 live indices at some point and >= 1 delete followed by re-add of the same index (a) / >= 50 store calls (b); distinct = hash of the case')
@@ -178,7 +180,7 @@ class C14(Check):
                    'del_map is not part of the property (the quantifier does not list it) and is only exercised through group_by in (b)']
     ANCHORS = ['rxsci/state/memory_store.py', 'rxsci/state/store.py']
     REQUIRED_TAGS = ['dtype=int', 'dtype=uint', 'dtype=float', 'dtype=bool', 'dtype=obj', 'dtype=mapper', 'default', 'no-default',
-                     'direct', 'manager', 'sparse', 'descending', 'pipeline']
+                     'direct', 'manager', 'sparse', 'descending', 'pipeline', 'wide']
     REQUIRED_OBSERVED = ['store.add_key', 'store.set', 'store.get', 'store.del_key', 'store.iterate',
                          'store.add_map', 'store.get_map', 'store.iterate_map', 'slot_rereads']
 
@@ -203,8 +205,10 @@ class C14(Check):
                                'bool': rng.choice([False, True]), 'obj': rng.choice([0, 'd', [1]])}[dt]
                 states.append({'dtype': dt, 'default': default})
             dom = doms[k % len(doms)]
+            if dom == 'wide' and k % 4:
+                dom = 'sparse'          # the wide histories are long: one in four of their turn
             yield {'kind': 'history', 'states': states, 'via': 'direct' if (nstates == 1 and k % 2) else 'manager',
-                   'domain': dom, 'ops': gen_history(rng, states, rng.choice([50, 120, 400]), dom)}
+                   'domain': dom, 'ops': gen_history(rng, states, rng.choice([50, 120, 400]) if dom != 'wide' else 900, dom)}
 
     # ------------------------------------------------------------------
     def evaluate(self, case):
